@@ -106,8 +106,8 @@ def py_expected(sig_text, ret, calls):
     return out
 
 
-def star_src(sig_text, ret, calls, path):
-    d = "def f(%s):\n    return (%s,)\n" % (sig_text, ", ".join(ret))
+def star_src(sig_text, ret, calls, path, body=None):
+    d = "def f(%s):\n    return %s\n" % (sig_text, body or "(%s,)" % ", ".join(ret))
     if path == "direct":
         callee = "f"
     elif path == "variable":
@@ -173,6 +173,20 @@ def run(tier):
                 units = [{"file": "sig.star", "src": d, "calls": [{"fn": "f", "pos": c[1][0], "named": c[1][1]} for c, _ in hc]}]
                 meta[cid] = (sig_text, [c for c, _ in hc], [e for _, e in hc], path)
             cases.append({"id": cid, "cfg": {"dialect": "internal"}, "units": units})
+        # bodies the compiler inlines at call sites of frozen defs (`return type(x) == "T"`, a safe-to-inline expression):
+        # binding must be decided before the body is substituted
+        if len(ret) <= 2 and "args" not in ret and "kwargs" not in ret:
+            for bname, btext, conv in (("typeis", 'type(%s) == "int"' % ret[0], lambda v: True), ("expr", "[%s]" % ", ".join(ret), lambda v: ["l"] + v[1:])):
+                exp2 = [["ok", conv(e[1])] if e[0] == "ok" else e for e in exp]
+                d2, body2 = star_src(sig_text, ret, calls, "direct", body=btext)
+                cid = "s%d/inline_%s_frozen" % (si, bname)
+                cases.append({"id": cid, "cfg": {"dialect": "internal"}, "units": [{"file": "sig.star", "src": d2 + "def viaf(*a, **k):\n    return f(*a, **k)\n", "freeze": True},
+                                                                                     {"file": "use.star", "src": 'load("sig.star", "f")\n' + body2}]})
+                meta[cid] = (sig_text + " [body: return " + btext + "]", calls, exp2, "inline_frozen")
+                cid = "s%d/inline_%s_local" % (si, bname)
+                cases.append({"id": cid, "cfg": {"dialect": "internal"}, "units": [{"file": "sig.star", "src": d2 + "def caller():\n" + "".join("    " + l + "\n" for l in body2.splitlines()) + "caller()\n"}]})
+                meta[cid] = (sig_text + " [body: return " + btext + "]", calls, exp2, "inline_local")
+                ncalls += 2 * len(calls)
         # partial(): the call f(P.., N.., *s, **m) split into partial(f, P[:i], N[:j])(P[i:], N[j:], *s, **m) must bind like the call itself;
         # naming a pre-bound keyword again must fail. Partials built in the calling module, in a frozen module, and called from the host.
         prng = random.Random("%d/c08p/%d" % (s, si))
@@ -230,7 +244,7 @@ def run(tier):
             cases.append({"id": cid, "cfg": {"dialect": "internal"}, "units": [{"file": "nat.star", "src": body}]})
             meta[cid] = ("<native %s> %s" % (nat, sig_text), calls, exp, path)
         ncalls += len(calls)
-    paths = paths + ["partial_split", "partial_frozen", "partial_host", "native", "native_variable"]
+    paths = paths + ["inline_frozen", "inline_local", "partial_split", "partial_frozen", "partial_host", "native", "native_variable"]
     log("[C08] %d signatures x %d paths, %d call shapes" % (len(sigs), len(paths), ncalls))
     svh = os.path.join(common.build("dbg"), "svh")
     batch = common.run_cases(svh, "run", cases, "c08", shards=NCPU, timeout=3000)
